@@ -3,9 +3,9 @@ C07 — indexes are transparent: indexed search equals unindexed search.
 
 Stream `C07`: an IndexedAdvancedHTMLParser configuration (4 flags, 0-2 attribute indexes) and a history
   parse, [parse again], [DOM edits], [index reconfiguration], reindex, queries …
-The model (lean/AHP/Model/Index.lean) and the library run the history; compared after every
-parse / reindex / setRoot: the contents of the index maps; for every query: the indexed answer and the
-answer of the plain search.  The oracle compares, on the library alone, the three answers the property names
+The model (lean/AHP/Model/Index.lean) and the library run the history; compared for every query: the
+indexed answer and the answer of the plain search (with AHP_C07_MAPS=1 also the contents of the index maps
+after every parse / reindex / setRoot).  The oracle compares, on the library alone, the three answers the property names
 (useIndex as asked, useIndex=False, a plain AdvancedHTMLParser on the same document) with each other and with
 a brute-force filter over the pre-order of the document described by the case data.
 
@@ -17,8 +17,8 @@ case data:
        | ['query', ['P'] | ['P', u], op, useIndex]
   node as in C06; uids are allocated in creation order over the whole history (wrapper of a multi-root parse first).
 """
-import copy
 import itertools
+import os
 import random
 
 from ..core import PropCheck, Case, sx, enc
@@ -70,9 +70,27 @@ class Pure(object):
         self.root = None
         self.dirty = False
         self.parsed = False
+        # values that were in the document once and may be gone now: the stale entries an index must not keep
+        self.retired = {'id': [], 'name': [], 'cls': [], 'tag': [], 'attr': []}
+
+    def _retire(self, n, deep=True):
+        for x in (p_iter(n) if deep else [n]):
+            at = dict(map(tuple, x['attrs']))
+            r = self.retired
+            for k, v in at.items():
+                if k == 'id':
+                    r['id'].append(v)
+                elif k == 'name':
+                    r['name'].append(v)
+                else:
+                    r['attr'].append([k, v])
+            r['cls'].extend(x['classes'])
+            r['tag'].append(x['tag'])
 
     def apply(self, st):
         k = st[0]
+        if k in ('parse', 'parsemulti') and self.root is not None:
+            self._retire(self.root)
         if k == 'parse':
             self.root = to_pnode(st[1], self.counter)
             self.dirty = False
@@ -87,6 +105,10 @@ class Pure(object):
                 raise Pure.Invalid('unknown element')
             n, parent = hit
             self.dirty = True
+            if k in ('setattr', 'delattr', 'rmclass'):
+                self._retire(n, deep=False)
+            elif k == 'remove':
+                self._retire(n)
             if k == 'setattr':
                 for a in n['attrs']:
                     if a[0] == st[2]:
@@ -117,6 +139,7 @@ class Pure(object):
             hit = p_find(self.root, st[1])
             if hit is None:
                 raise Pure.Invalid('unknown element')
+            self._retire(self.root)
             self.root = hit[0]
             self.dirty = False
         elif k == 'query':
@@ -262,6 +285,10 @@ class _Shim(object):
 
 
 MAPS_AFTER = ('parse', 'parsemulti', 'reindex', 'setroot')
+# The contents of the private index maps are compared only on request (AHP_C07_MAPS=1, a development aid): the
+# property speaks about answers, and a harmless change of the bookkeeping (e.g. a flag that stays on after
+# disableIndexing and is filled again by the next reindex) must not raise an alarm.
+COMPARE_MAPS = os.environ.get('AHP_C07_MAPS') == '1'
 
 
 # ------------------------------------------------------------------------------------------------
@@ -335,6 +362,16 @@ def doc_queries(rng, pure, n, idx_attrs):
                 vs += [rng.choice(c06.VALUES + [c06.ABSENT]) for _ in range(rng.randint(0, 2))]
                 rng.shuffle(vs)
                 op = ['vals', a, vs[:3]]
+        ret = pure.retired
+        if rng.random() < 0.3:
+            if op[0] in ('tag', 'name', 'id', 'cls') and ret[op[0]]:
+                op = [op[0], rng.choice(ret[op[0]])]
+            elif op[0] == 'attr' and ret['attr']:
+                a, v = rng.choice(ret['attr'])
+                op = ['attr', a, v]
+            elif op[0] == 'vals' and ret['attr']:
+                a, v = rng.choice(ret['attr'])
+                op = ['vals', a, [v] + op[2][:1]]
         r = rng.random()
         if r < 0.55 or len(nodes) == 1:
             recv = ['P']
@@ -433,11 +470,14 @@ def gen_history(rng, max_steps=12, tier='quick'):
         return ['parse', c06.rand_doc(rng, n, 'unique')]
 
     push(parse_step())
-    if rng.random() < 0.35:
+    if rng.random() < 0.5:
         for q in doc_queries(rng, pure, rng.randint(1, 3), idx_attrs):
             push(q)
     if rng.random() < 0.3:
         push(parse_step())
+        if rng.random() < 0.75:
+            for q in doc_queries(rng, pure, rng.randint(2, 4), idx_attrs):
+                push(q)
     rounds = rng.choice((1, 1, 2))
     for _ in range(rounds):
         for _ in range(rng.choice((0, 1, 2, 3, 4))):
@@ -634,7 +674,7 @@ class Check(PropCheck):
         out = []
         for st in d['steps']:
             out.append(enc_step(st, counter))
-            if st[0] in MAPS_AFTER:
+            if COMPARE_MAPS and st[0] in MAPS_AFTER:
                 out.append(['maps'])
         return sx(list(d['cfg']), [enc(a) for a in d['attrs']], out)
 
@@ -655,7 +695,7 @@ class Check(PropCheck):
                 out.append(['err'])
                 continue
             out.append('ok')
-            if st[0] in MAPS_AFTER:
+            if COMPARE_MAPS and st[0] in MAPS_AFTER:
                 out.append(R.maps())
         return sx(*out)
 
